@@ -89,7 +89,9 @@ CLAIMED = {
             'products/sums; operators and fadd/fsub/fmul pass (prec, rounding) and dispatch to the '
             'like-named kernel with operands in order; mpc equality is exact componentwise equality; every argument of '
             'an mpc_*/mpf_* kernel call whose shape can be inferred (raw mpf vs pair) has the shape the kernel takes '
-            '(H-R15, sa/shape.py).  '
+            '(H-R15, sa/shape.py); z**n takes the exact integer path for every power of up to 10^4 bits, on and '
+            'off the axes, with a gate that allows for the 2x slack of its size estimate, and a negated power is '
+            'rounded in the opposite direction (P-R1; three genuine defects repaired).  '
             'Two known findings (component passed through by mpc_add_mpf / mpc_sub_mpf).  Error bounds of '
             'division/powers are not decided.',
             'Trusts the real kernels (C02).',
@@ -100,8 +102,10 @@ CLAIMED = {
             'Clause: every path of the integer-part kernels yields a special value or a single rounding in '
             'the caller\'s mode at the requested precision of an exactly computed value (exact integer '
             'part, exact difference); public names are wired to the like-named kernels with the right '
-            'direction constants; int() truncates.  The integer arithmetic of mpf_round_int / the modulo '
-            'reduction is not decided.',
+            'direction constants; int() truncates; zeros, infinities and nan follow the special-value table on '
+            'every operand-class combination (S-R1, class interpretation); the modulo reduction never writes out '
+            'an integer as large as the exponent gap of its operands (M-R1; genuine defect repaired).  The value '
+            'of mpf_round_int / of the modulo reduction is not decided.',
             'Trusts mpf_round_int as an exact integer-part operation.',
             'DESIGN.md section 2, Engine B'),
     'C07': ('B-rounding-flow',
@@ -112,8 +116,11 @@ CLAIMED = {
             'exponents the mantissa stays exact and the power of ten is rounded in a direction derived '
             'from the mode and the sign; every caller passes (prec, rounding); interval literal forms '
             'round lower endpoints with floor and upper endpoints with ceiling directly from the text; no '
-            'memo table on the path omits the rounding mode.  A genuine defect (|exp|>400 branch) was '
-            'repaired.  Correct rounding of from_rational/from_int is C02\'s clause.',
+            'memo table on the path omits the rounding mode; the two literals of the shared-prefix interval form '
+            'are ordered by value before the directed conversions and the documented forms agree between sibling '
+            'branches (C-R7); a literal\'s digit string reaches int() only in pieces bounded below the '
+            'interpreter\'s 4300-digit limit (L-R1, text-kind inference).  Genuine defects (|exp|>400 branch, long '
+            'literals, inverted interval strings) were repaired.  Correct rounding of from_rational/from_int is C02\'s clause.',
             'Trusts from_int/from_rational/mpf_pow_int (C02/C03).',
             'DESIGN.md section 2, Engine B (B-R5)'),
     'C13': ('B-rounding-flow',
@@ -128,10 +135,14 @@ CLAIMED = {
             '(intermediate, consumer) pair is examined; (B-R8) each of the ten complex exp/trig kernels '
             'hands an argument with exactly zero imaginary part to the real kernel at the caller\'s '
             '(prec, rnd) before the imaginary part reaches any computation - what keeps tan/cot/sec/csc '
-            'finite next to the real poles for complex-typed real arguments.  Exactness of perfect powers '
-            'and special points as values is not decided.',
-            'Seeded change C13-3 (half-integer exponents no longer routed through sqrt in mpf_pow) is a '
-            'choice of algorithm and is not detected.',
+            'finite next to the real poles for complex-typed real arguments; (R-C1) a value-range scan of the '
+            'complex trigonometric kernels: no sum of a [-1,1] value and a >= 1 value at fixed precision (the '
+            'cancelling denominator of complex tan: genuine defect repaired); (E-X1) both result bindings of '
+            'mpf_nthroot pass a sound perfect-power test first (genuine defect repaired); (E-X2) every '
+            'half-integer exponent is routed through the exact square root; (S-R2) documented limits at 0, +-inf, '
+            'nan by class interpretation.  Exactness of perfect powers as values is decided only through these '
+            'necessary conditions.',
+            'Assumes exact_nthroot\'s arithmetic (c**n == man) is Python integer arithmetic.',
             'DESIGN.md section 2, Engine B (B-R6, B-R8, B-R9)'),
     'C10': ('B-rounding-flow',
             'static analysis: flow-sensitive abstract interpretation of the kernels (bounded '
@@ -144,7 +155,9 @@ CLAIMED = {
             'prec+10 does not).  Operands passed through unrounded, exact-mode results, guard bits '
             'left on, and rounding at an unrelated precision are reported with the responsible '
             'return statement.  Wrapped special functions are covered by the +retval rule on the '
-            'wrapper.  Documented exact operations are a frozen, reasoned exemption table.  Three '
+            'wrapper.  Documented exact operations are a frozen, reasoned exemption table.  No plain @defun '
+            'function of the elementary layer and no class-body lambda hands its argument back unrounded (B-R8; '
+            'two genuine defects repaired).  Three '
             'genuine defects that the pinned tests depend on are recorded as known findings.',
             'Trusts the rounding primitives (checked under C01), the exemption tables in '
             'sa/tables.py and that private helpers are reached only through rounding callers.  The '
@@ -350,11 +363,15 @@ CLAIMED = {
             'reached only with a non-zero mantissa); '
             'dispatched names are bound on every branch to the alternative written for that backend and '
             'derived tables are built through the dispatching names; the tie masks and bit-count tables '
-            'the C normaliser never consults agree with each other and with the thresholds guarding them.  '
-            'Bit-identical results are NOT decided.',
+            'the C normaliser never consults agree with each other and with the thresholds guarding them; the '
+            'integer square-root correction code (isqrt_python, sqrtrem_python) is executed over a finite abstract '
+            'domain (error of the approximate root in {-1,0,+1} x position of x between two squares, exact '
+            'polynomial values): every reachable exit returns floor(sqrt(x)) and x - root^2 (Y-R6, Y-R7, '
+            'sa/rootoff.py); backend alternatives of the digit conversion share their recursive tail (Y-R5).  '
+            'Bit-identical results in general are NOT decided.',
             'Assumes the C routines implement the contract named in the table row.  The exact integer '
-            'helpers of the python backend (isqrt_python, numeral_python, python_bitcount) are value-level: '
-            'seeded changes C37-2 and C37-3 are not detected.',
+            'approximate root isqrt_fast_python is assumed to be within one unit of the floor root (documented, '
+            'and observed on 200 000 probes).',
             'DESIGN.md section 4 (C37)'),
     'C35': ('Q-result-gates',
             'static analysis: dominance rules over the return statements of pslq / findpoly / identify '
